@@ -649,6 +649,14 @@ class C14(Engine):
         res.digest = plan_hash(digests)
         return res
 
+    def sample_view(self, plan):
+        from vlib.framework import trim
+        if "cases" in plan:
+            v = dict(plan)
+            v["cases"] = plan["cases"][:2] + ["... %d more cases" % max(len(plan["cases"]) - 2, 0)]
+            return trim(v, 120)
+        return trim(plan, 400)
+
     def shrink(self, plan):
         if plan["kind"] == "lockstep":
             cases = plan["cases"]
